@@ -5,6 +5,12 @@ import json, os, subprocess, sys, tempfile
 import xml.etree.ElementTree as ET
 
 def main():
+    repo = sys.argv[1] if len(sys.argv) > 1 else '/repo'
+    if repo != '/repo':
+        inc = '/root/.pyenv/versions/3.12.1/include/python3.12'
+        for name, extra in (('csimulator', []), ('ccmiosimulator', ['-DCONTENTION'])):
+            subprocess.run(['gcc', '-O2', '-shared', '-fPIC', '-I', inc] + extra + [repo + '/c/csimulator.c', '-o',
+                           '%s/skoolkit/%s.cpython-312-x86_64-linux-gnu.so' % (repo, name)], check=True)
     env = dict(os.environ)
     env.pop('SKOOLKIT_VERIF', None)
     env.pop('PYTHONPATH', None)
@@ -14,7 +20,7 @@ def main():
            '--continue-on-collection-errors', '--junitxml=' + out]
     if jobs != '0':
         cmd += ['-n', jobs]
-    r = subprocess.run(cmd, cwd='/repo', env=env, capture_output=True, text=True)
+    r = subprocess.run(cmd, cwd=repo, env=env, capture_output=True, text=True)
     passed = set()
     for tc in ET.parse(out).getroot().iter('testcase'):
         if not any(c.tag in ('failure', 'error', 'skipped') for c in tc):
